@@ -306,6 +306,7 @@ impl Model {
                 }
             }
             Op::SetTime(..) => Exp::AnyNoEffect,
+            Op::HoldOpen(..) | Op::Publish(_) => Exp::Unspec,
         }
     }
 
@@ -402,7 +403,7 @@ impl Model {
                     Out::Count(count)
                 }
             }
-            Op::SetTime(..) => Out::Unit,
+            Op::SetTime(..) | Op::HoldOpen(..) | Op::Publish(_) => Out::Unit,
         }
     }
 
